@@ -120,6 +120,12 @@ def html_varied(links, salt, meta=None, hinted=False):
             forms = UNTYPED_INLINE_FORMS
         plain = len(ref) < 2 or ref.startswith('#')
         parts.append(forms[0 if plain else (salt + 3 * k) % len(forms)] % ref)
+    if links and salt % 4 == 0:
+        # a document that simply STOPS after its last start tag (a stub page, a cut-off template): no end tag, no
+        # further tag — the last element is still an element
+        ref, inline = links[-1]
+        parts[-1] = ('<img src="%s">' if inline else '<a href="%s">') % ref
+        return ''.join(parts).encode('utf-8')
     parts.append('</body></html>')
     return ''.join(parts).encode('utf-8')
 
@@ -247,6 +253,10 @@ def gen_site(rng, size=None, redirects=True, inline=True, offsite=True, deep=Fal
         s.pages[twin] = {'kind': 'html', 'links': [(paths[0], False)]} if rng.random() < 0.5 else {'kind': 'leaf'}
         hub = rng.choice([q for q in paths if s.pages[q]['kind'] == 'html'])
         s.pages[hub]['links'] += [(base, False), (twin, False)]
+    # a relative reference that EMBEDS another URL in its query (login?next=http://...): one URL on this host
+    for p in paths:
+        if s.pages[p]['kind'] == 'html' and rng.random() < 0.2:
+            s.pages[p]['links'].append((rng.choice(['/go?next=http://a.test/', 'share?u=http://a.test%s' % rng.choice(paths), '/r?u=ftp://x/']), False))
     # a reference nothing can be made of (urljoin raises ValueError for it), AHEAD of the page's other links: it is
     # skipped, the rest of the page is still read
     for p in paths:
